@@ -139,6 +139,9 @@ def div(ctx, a, b):
     """True division a / b without emitting a division term (DESIGN 2.5)."""
     if _both_conc(a, b):
         if b == 0:
+            if CONCRETE_MODE:      # NumPy semantics on the concrete side: inf / nan, no exception
+                fa = float(a)
+                return float("nan") if fa == 0 or fa != fa else (float("inf") if fa > 0 else float("-inf"))
             raise ZeroDivisionError
         return Fraction(a) / Fraction(b) if not isinstance(a, float) and not isinstance(b, float) else a / b
     if not is_sym(b):
@@ -149,7 +152,13 @@ def div(ctx, a, b):
         return mul(a, HSQRT2)          # division-free encoding (DESIGN 2.5)
     # a / b := a * inv(b) with the guarded definition b != 0 => b * inv(b) == 1; all divisions by
     # the same denominator then agree by polynomial identity (no division terms, DESIGN 2.5)
-    key = Z(b).get_id()
+    b = z3.simplify(Z(b), som=True)      # canonical polynomial form: equal denominators share one inverse symbol
+    if z3.is_rational_value(b) or z3.is_int_value(b):
+        cb = conc(b)
+        if cb == 0:
+            raise ZeroDivisionError
+        return mul(a, Fraction(1) / Fraction(cb))
+    key = b.sexpr()      # structural key (z3 AST ids are recycled after garbage collection)
     iv = ctx.div_cache.get(key)
     if iv is None:
         iv = ctx.fresh("inv")
@@ -368,8 +377,8 @@ HSQRT2 = z3.Real("HSQRT2")   # 1/sqrt(2)
 CONST_FACTS = [PI > z3.Q(314159, 100000), PI < z3.Q(314160, 100000),
                SQRT2 > 0, SQRT2 * SQRT2 == 2, HSQRT2 > 0, 2 * HSQRT2 * HSQRT2 == 1,
                HSQRT2 * SQRT2 == 1]
-_cosf = z3.Function("cos", z3.RealSort(), z3.RealSort())
-_sinf = z3.Function("sin", z3.RealSort(), z3.RealSort())
+_cosf = z3.Function("ucos", z3.RealSort(), z3.RealSort())
+_sinf = z3.Function("usin", z3.RealSort(), z3.RealSort())
 
 
 CONCRETE_MODE = False
